@@ -13,7 +13,7 @@ CLAIMED = {
  'C03': dict(text="DDM and ECDD-WT verdicts proved equal to their non-incremental published rules (batch mean, earliest argmin of p+s, closed-form EWMA, Ross polynomial typed from the paper) for all streams and configurations over R; EDDM statistics proved equal to batch mean/SSD/std of the error distances and each step's decision characterised by the ratio rule; RDDM proved to give DDM's verdicts until its first event (every number system) and to keep the running mean of a suffix that grows by one and is cut back only right after an event to <= min_concept_size+1 values. Code tied by exhaustive 0/1 streams (length 11/14) against an independent Python transcription of the rules, plus model correspondence.",
              note="Trusted: Coq kernel; Reals axioms; numerically tied comparisons are excluded from the run-time comparison as the property allows.",
              tech="Coq proof (refinement to non-incremental specifications; simulation RDDM->DDM; suffix invariant via ring-buffer refinement) + correspondence check"),
- 'C04': dict(text="HDDM-A/W models tied to the code on all 0/1 streams of length 10 (12 thorough) and random [0,1] streams in both modes; monitors: verdict vs two-sample Hoeffding / McDiarmid bound on the detector's own cut-point samples, one-sided alarms subset of two-sided, mirror symmetry x->1-x, rise/drop family within the formula's delay bound. Coq: rule equivalence, mirror symmetry and extension theorems (Proofs/HDDMR.v).",
+ 'C04': dict(text="Proved: for every history (resets included) HDDM-A's z/x/y samples are the Mean of the values since the last restart and of a non-empty prefix of them (the running cut), HDDM-W's samples the EWMA/ibc of the window, of the prefix at the cut and of the values after it; drift (warning) at a step <-> t >= min and the mean (EWMA) after the cut exceeds the one up to it by at least the two-sample Hoeffding (McDiarmid) bound at alpha_d (alpha_w) (over R); one-sided alarms are two-sided alarms up to the first alarm (every number system); two-sided HDDM-A verdicts invariant under x -> 1-x; a drop 1^n 0^k is detected exactly as the rise 0^n 1^k and within an explicit delay bound; HDDM-W: invariance under x -> -x only (1-x mirror is false: EWMA starts at 0), delay bound not proved (partial). HDDM-A/W models tied to the code on all 0/1 streams of length 10 (12 thorough) and random [0,1] streams in both modes; monitors: verdict vs two-sample Hoeffding / McDiarmid bound on the detector's own cut-point samples, one-sided alarms subset of two-sided, mirror symmetry x->1-x, rise/drop family within the formula's delay bound. Coq: rule equivalence, mirror symmetry and extension theorems (Proofs/HDDMR.v).",
              note="Trusted: Coq kernel; Reals axioms; ln is a ~1 ulp Gallina implementation in the binary64 run; verdict disagreements are accepted as near ties only if the model with ln perturbed by 2^-40 reproduces the code.",
              tech="Coq proof (algebraic equivalence, simulation, mirror bisimulation) + correspondence check and metamorphic monitors"),
  'C05': dict(text="ADWIN model (rows of buckets, compress cascade, delete, eps_cut scan, shrink loop on fuel) tied to the code after every update (width, total, variance, row lengths, drift); monitor recomputes the window from the raw stream and checks suffix-window, bucket sizes, shrink-only-at-check, drift-iff-dropped, justified shrink, quiet after check. Structural theorems (warm-up, drift only at checks) proved; representation invariant in progress.",
@@ -25,6 +25,9 @@ CLAIMED = {
  'C07': dict(text="Statistic = property's recurrence over the batch mean, verdict iff t>=min and g>lambda, shift invariance and lambda antitonicity proved over R for all streams and configurations; warm-up/no-latch for every number system. Binary64 model compared with the code at every step; invariances also checked on the implementation.",
              note="Trusted: Coq kernel; Reals axioms; correspondence by differential testing.",
              tech="Coq proof (induction over the stream, refinement to the batch recurrence) + correspondence check"),
+ 'C08': dict(text="Over R, for every configuration with positive variances and hazard in (0,1) and every stream: the model's parameter lists are the conjugate posterior mean/precision of the k newest values; its log message is ln of the Adams-MacKay joint P(r_t=k, x_1..t) defined non-incrementally in linear space; exp of its row is the exact run-length posterior; every row sums to one; predicted mean/variance are the posterior-weighted mixtures of the updated parameters; from min_num_instances on drift <-> the first arg-max of the posterior is not t, and no drift before. Model tied to the code per run (rows of log_r, predictions, verdict) on Gaussian streams with shifts, priors/variances/hazards on a grid incl. extremes.",
+             note="Trusted: Coq kernel/vm_compute; Reals axioms (classical reals, classic, funext); binary64 run uses Gallina exp/ln (~1 ulp), tolerance 1e-8 on probabilities, arg-max ties skipped; SciPy's norm.logpdf/logsumexp are modelled by their formulas.",
+             tech="Coq proof (log-space recursion refines the linear-space Adams-MacKay specification; logsumexp/logpdf lemmas with explicit domain safety) + correspondence check"),
  'C11': dict(text="The model's statistic is the supremum over all reals of |F_ref - F_test| (attained at a sample point); the exact p-value DP equals the count of interleaving words whose maximal deviation reaches the observed one, out of C(n+m,n) equally likely words, for all n, m (no bound); 0 <= p <= 1. IncrementalKSTest: for every reference, window size >= 1 and history of fit/update/reset, update never fails once fitted (MissingFitError exactly when unfitted), returns nothing for the first window_size-1 values and then exactly the batch test on the last window_size values (ring buffer handed over in storage order + permutation invariance). Tied to the code per run: all (n,m) with n+m <= 14 and every attainable d exhaustively, random larger samples with ties, sizes straddling 10 000.",
              note="Trusted: Coq kernel/vm_compute; Reals axioms where samples are reals; above 10 000 values the p-value is SciPy's kstwo.sf (oracle): the model carries the statistic and the check compares batch with incremental there.",
              tech="Coq proof (DP = enumeration of interleavings by induction on n+m; ring-buffer refinement; permutation invariance) + exhaustive small-size and random correspondence"),
